@@ -48,6 +48,7 @@ structure St where
   walDurable : List Rec := []     -- WAL content as of its last fsync / sync
   primDurable : Slots := []       -- primary content as of the last sync
   acked : Nat := 0                -- number of acknowledged flushes
+  applied : List Cmd := []        -- ghost: every primary write performed so far, in order
 deriving Repr
 
 /-- writer bookkeeping carried between events: next TG id, lastCommittedTGID -/
@@ -83,7 +84,7 @@ def trace : Ctl → List Event → List Effect
 def exec (s : St) : Effect → St
   | .walAppend r => { s with wal := s.wal ++ [r] }
   | .walFsync => { s with walDurable := s.wal }
-  | .prim c => { s with prim := s.prim.put (c.year, c.index) c.payload }
+  | .prim c => { s with prim := s.prim.put (c.year, c.index) c.payload, applied := s.applied ++ [c] }
   | .sync => { s with walDurable := s.wal, primDurable := s.prim }
   | .walTruncate => { s with wal := [] }
   | .ack => { s with acked := s.acked + 1 }
